@@ -3,7 +3,7 @@
 # Confirms: patched tree compiles, full ctest passes, demo exits 0 unchanged / non-zero changed.
 # On success copies the artefacts to /verif/seeded/Cxx-i/ with meta.json.
 set -u
-P=$1; I=$2; WT=/tmp/adv-$P; OUT=/tmp/adv-$P-out; DEST=/verif/seeded/$P-$I
+P=$1; I=$2; PFX=${ADVPFX:-adv}; OFF=${SEEDOFF:-0}; N=$((I+OFF)); WT=/tmp/$PFX-$P; OUT=/tmp/$PFX-$P-out; DEST=/verif/seeded/$P-$N
 cd $WT || exit 2
 git checkout -q -- . ; git clean -fdq -e _build0 -e _build1 2>/dev/null
 # bring the worktree to /repo's current HEAD so that patches are confirmed against the current code
@@ -23,10 +23,10 @@ CT=$(ctest --test-dir $B1 -j8 --timeout 900 2>&1 | grep "tests passed\|tests fai
 cd $OUT; bash build_demo$I.sh $WT $B1 >/tmp/confirm_${P}_${I}.log 2>&1 || { echo "demo build (patched) failed"; cd $WT; git checkout -q -- .; exit 7; }
 ( timeout 300 ./demo$I >/tmp/confirm_demo1.log 2>&1 ); RC1=$?
 cd $WT; git checkout -q -- .; rm -rf $B1
-echo "$P-$I: unchanged demo rc=$RC0, patched demo rc=$RC1, ctest: $CT"
+echo "$P-$N: unchanged demo rc=$RC0, patched demo rc=$RC1, ctest: $CT"
 if [ $RC0 -eq 0 ] && [ $RC1 -ne 0 ] && echo "$CT" | grep -q "100% tests passed"; then
   mkdir -p $DEST; cp $OUT/patch$I.diff $DEST/patch.diff; cp $OUT/demo$I.c $DEST/demo.c; cp $OUT/build_demo$I.sh $DEST/build_demo.sh; cp $OUT/README$I.md $DEST/README.md
-  python3 - "$P" "$I" "$RC0" "$RC1" "$CT" <<'PY'
+  python3 - "$P" "$N" "$RC0" "$RC1" "$CT" <<'PY'
 import json,sys
 p,i,rc0,rc1,ct=sys.argv[1:6]
 readme=open(f'/verif/seeded/{p}-{i}/README.md').read()
